@@ -28,13 +28,16 @@ TARGETS = ["Base/Corr.vo", "C11/Model.vo", "C11/Spec.vo", "C11/Dense.vo", "C11/C
            # round 6: the statement language of the translator go2coq_c11 + exp_* = model functions
            "C11/GenLib.vo", "C11/PropsMatPerm.vo",
            # round 6: dense reading of Row / Col / Diag
-           "C11/ProofsMatRow.vo", "C11/ProofsMatRow2.vo", "C11/PropsMatRow.vo"]
+           "C11/ProofsMatRow.vo", "C11/ProofsMatRow2.vo", "C11/PropsMatRow.vo",
+           # round 7: the reading of Real scalars (null = value AND derivatives zero) + frame of At / At().Set
+           "C11/ModelVar.vo", "C11/ProofsVar.vo", "C11/PropsVar.vo"]
 PROPS = ["C11/Props.v", "C11/PropsIt.v", "C11/PropsMat.v", "C11/PropsMat2.v", "C11/PropsPay.v", "C11/PropsIt2.v",
-         "C11/PropsMatFrom.v", "C11/PropsMatPerm.v", "C11/PropsMatRow.v"]
+         "C11/PropsMatFrom.v", "C11/PropsMatPerm.v", "C11/PropsMatRow.v", "C11/PropsVar.v"]
 PROP_MODULES = [("C11.Props", "C11/Props.v"), ("C11.PropsIt", "C11/PropsIt.v"), ("C11.PropsMat", "C11/PropsMat.v"),
                 ("C11.PropsMat2", "C11/PropsMat2.v"), ("C11.PropsPay", "C11/PropsPay.v"),
                 ("C11.PropsIt2", "C11/PropsIt2.v"), ("C11.PropsMatFrom", "C11/PropsMatFrom.v"),
-                ("C11.PropsMatPerm", "C11/PropsMatPerm.v"), ("C11.PropsMatRow", "C11/PropsMatRow.v")]
+                ("C11.PropsMatPerm", "C11/PropsMatPerm.v"), ("C11.PropsMatRow", "C11/PropsMatRow.v"),
+                ("C11.PropsVar", "C11/PropsVar.v")]
 PARTIAL = ("Theorems are about the hand-written models coq/C11/Model.v (vector_sparse_template.in: heap of cells + "
            "value map + ordered key set standing for the AVL index, justified by C19), ModelIt.v / ModelIt2.v (held "
            "iterators), ModelMat.v (sparse matrices, whole matrices only), ModelMatFrom.v (matrix IteratorFrom) and "
@@ -42,7 +45,13 @@ PARTIAL = ("Theorems are about the hand-written models coq/C11/Model.v (vector_s
            "of them; by TRANSLATION only for the six exchange / permutation methods of the sparse matrices (go2coq_c11 "
            "regenerates Swap / SwapRows / SwapColumns / PermuteRows / PermuteColumns / SymmetricPermutation from all nine "
            "matrix_sparse_<t>.go, Coq proves them equal to the model functions); every other method is hand-transcribed. "
-           "Element carrier Z. The dense refinement (vectors: all 25 operations incl. ConstIteratorFrom; matrices: all 22 "
+           "Element carrier Z; for the Real element types the integer standing for a scalar is value + 1000 * derivative[0] "
+           "(ModelVar.v; PropsVar.v proves it is 0 exactly on the scalars nullScalar() calls null, injective for |value| < 500 "
+           "and commuting with SetFloat64 / Reset / SET / SetVariable, and that iteration visits exactly the non-null "
+           "scalars, a variable at the point 0 included): scalars with at most ONE variable, order 1; Hessians, several "
+           "variables and the value-computing operations (Sort / Map / MapSet / Reduce) on vectors holding variables are "
+           "not in the histories of the correspondence (the reading does not commute with arithmetic), and the "
+           "reading itself (harness pv + hook VerifC11Deriv0) is tied by correspondence only. The dense refinement (vectors: all 25 operations incl. ConstIteratorFrom; matrices: all 22 "
            "operations + ConstIteratorFrom(i,j) full / abandoned + the three permutations, world level, whole histories) "
            "is stated for histories in which in-place writes go to containers holding no scalar shared with another one "
            "(Dense.safe / DenseMat.msafe; shared-cell writes = known finding C11-SLICEWT, T() sharing = C10 F-SPT-REF); "
@@ -231,6 +240,7 @@ def run(ctx):
     ctx.cov["trusted_base"] = vlib.TRUSTED_BASE_COMMON + [
         "hook /repo/verif_c11.go (read-only dump of the private map, nil placeholders and AVL index keys)",
         "hook /repo/verif_c11_mat.go (read-only: the private values vector of a sparse matrix) and C10's VerifC10Header",
+        "hook /repo/verif_c11_var.go (read-only: Derivative[0] of the scalars stored in a sparse Real32 / Real64 vector)",
         "hook /repo/verif_c11_it.go (read-only: node validity !Deleted && Value == value of a held iterator; it is an INPUT of "
         "the stale-iterator model ModelIt2.v, cross-checked where the model knows it)",
         "C19's AVL model (coq/C19/Model.v) for the tree-level justification of the two stale-iterator branches (PropsIt2.v)",
